@@ -190,13 +190,13 @@ type attrSpec struct {
 }
 
 type childSpec struct {
-	Tag   string
-	Text  string            // expected ap of text ("" = no text)
+	Tag     string
+	Text    string            // expected ap of text ("" = no text)
 	TextAlt map[string]string // atom -> text ap (first matching atom wins)
-	Attrs []attrSpec
-	When  string
-	Loop  string // children created in a generic iteration over this collection (ap); text = coll[*]
-	Kids  []childSpec
+	Attrs   []attrSpec
+	When    string
+	Loop    string // children created in a generic iteration over this collection (ap); text = coll[*]
+	Kids    []childSpec
 }
 
 type docRoot struct {
@@ -1372,6 +1372,26 @@ func templateFields(src string) ([]string, error) {
 	return out, nil
 }
 
+// expandRelayBlock: the template text rendered for a non-empty (taken) / empty relay state when the template decides
+// with exactly one `{{if .RelayState}}…{{end}}` block that holds no further control action.
+var reRelayBlock = regexp.MustCompile(`(?s)\{\{\s*if\s+\.RelayState\s*\}\}(.*?)\{\{\s*end\s*\}\}`)
+
+func expandRelayBlock(src string, taken bool) (string, bool) {
+	ms := reRelayBlock.FindAllStringSubmatchIndex(src, -1)
+	if len(ms) != 1 {
+		return "", false
+	}
+	m := ms[0]
+	inner := src[m[2]:m[3]]
+	if regexp.MustCompile(`\{\{-?\s*(if|else|range|with|template|block|define|end)\b`).MatchString(inner) {
+		return "", false
+	}
+	if !taken {
+		inner = ""
+	}
+	return src[:m[0]] + inner + src[m[1]:], true
+}
+
 func ruleC16(c *Ctx) {
 	c.rule("C16-R1", "the bytes returned by the three POST body builders come only from a bytes.Buffer written by (*html/template.Template).Execute (package identity checked)")
 	c.rule("C16-R2", "the template source is a compile-time constant; parsed at analysis time: only plain field actions whose fields exist in the data struct with type string; every action sits inside a double-quoted attribute value; one form, method POST, action={{.URL}}; hidden SAMLRequest/SAMLResponse input; RelayState input present exactly on the relayState != \"\" path")
@@ -1399,126 +1419,146 @@ func ruleC16(c *Ctx) {
 			pos := c.P.InstrPos(t.Instr)
 			atoms := t.atoms()
 			withRelay := atoms[`!(`+relay+` == "")`]
-			if !withRelay && !atoms[relay+` == ""`] {
-				c.bad("C16-R2", fname, "RelayState input decided by relayState != \"\"", pos, "path does not test relayState")
-				continue
+			// the decision may be left to the template: one `{{if .RelayState}}…{{end}}` block around the input, evaluated
+			// by html/template on the wired field (a string is true exactly when it is non-empty). Such a path is analysed
+			// twice, once per outcome of the block, over the template text that outcome renders.
+			inTemplate := !withRelay && !atoms[relay+` == ""`]
+			passes := 1
+			if inTemplate {
+				passes = 2
 			}
-			label := "without relay state"
-			if withRelay {
-				label = "with relay state"
-			}
-			var exec *Event
-			for _, e := range t.St.events {
-				if e.Kind == EvCall && strings.HasSuffix(e.Callee, "Template).Execute") {
-					exec = e
+			for pass := 0; pass < passes; pass++ {
+				if inTemplate {
+					withRelay = pass == 0
 				}
-			}
-			if exec == nil {
-				c.bad("C16-R1", fname, "output produced by template execution ["+label+"]", pos, "no template Execute on the accepting path")
-				continue
-			}
-			c.check(exec.Callee == "(*html/template.Template).Execute", "C16-R1", fname, "html/template executes the form ["+label+"]", c.P.InstrPos(exec.Instr), exec.Callee, "the form is rendered by "+exec.Callee+": no contextual HTML escaping")
-			// returned bytes = Bytes(buf) with buf the Execute destination; no other writer to buf
-			buf := stripIface(exec.Args[1])
-			rv, isC := t.Vals[0].(*CallV)
-			c.check(isC && rv.Callee == "(*bytes.Buffer).Bytes" && rv.Args[0].Key() == buf.Key(), "C16-R1", fname, "returns the executed buffer ["+label+"]", pos, "rv.Bytes()", "returns "+ap(t.Vals[0]))
-			for _, e := range t.St.events {
-				if e.Kind == EvCall && e != exec && e.Seq < exec.Seq+1000 && directArg(e, buf.Key()) && !bufferReadOnly[shortName(e.Callee)] {
-					c.bad("C16-R1", fname, "other writer to the output buffer ["+label+"]", c.P.InstrPos(e.Instr), shortName(e.Callee)+" also writes the output buffer: content bypasses the template escaper")
+				label := "without relay state"
+				if withRelay {
+					label = "with relay state"
 				}
-			}
-			execOK, k := t.eqFact(exec.Res[0], nilOf(nil))
-			c.check(k && execOK, "C16-R1", fname, "Execute error checked ["+label+"]", pos, "err == nil", "returns output although Execute's error is not known nil")
-			// template value: Must(Parse(New(name), SRC))
-			src, srcOK := "", false
-			if must, ok := exec.Args[0].(*CallV); ok {
-				var p *CallV
-				if must.Callee == "html/template.Must" || must.Callee == "text/template.Must" {
-					p, _ = must.Args[0].(*CallV)
-				} else {
-					p = must
+				var exec *Event
+				for _, e := range t.St.events {
+					if e.Kind == EvCall && strings.HasSuffix(e.Callee, "Template).Execute") {
+						exec = e
+					}
 				}
-				if p != nil && strings.HasSuffix(p.Callee, "Template).Parse") && len(p.Args) == 2 {
-					src, srcOK = constString(p.Args[1])
-				}
-			}
-			if l, isLoad := exec.Args[0].(*LoadV); isLoad && !srcOK {
-				_ = l
-			}
-			if !srcOK {
-				c.bad("C16-R2", fname, "template source is a constant ["+label+"]", c.P.InstrPos(exec.Instr), "the template text is not a compile-time constant (configured or caller data concatenated into the template is never escaped): "+ap(exec.Args[0]))
-				continue
-			}
-			fields, err := templateFields(src)
-			if err != nil {
-				c.bad("C16-R2", fname, "template parses ["+label+"]", c.P.InstrPos(exec.Instr), "template does not parse: "+err.Error())
-				continue
-			}
-			// template data: a struct (by value or through a pointer, promoted fields of embedded structs included) or a
-			// map[string]string literal — what html/template resolves ".Name" against
-			data := stripIface(exec.Args[2])
-			dm, dmOK := templateData(t, data)
-			if !dmOK {
-				c.bad("C16-R2", fname, "template data is a struct ["+label+"]", c.P.InstrPos(exec.Instr), "data is "+typeStr(data.Type())+": neither a struct of strings nor a map[string]string literal")
-				continue
-			}
-			want := map[string]bool{"URL": true, ps.B64Field: true}
-			if withRelay {
-				want["RelayState"] = true
-			}
-			seen := map[string]bool{}
-			for _, f := range fields {
-				if strings.HasPrefix(f, "!") {
-					c.bad("C16-R2", fname, "only plain field actions ["+label+"]", c.P.InstrPos(exec.Instr), "template uses "+f+": outside the analysed shape")
+				if exec == nil {
+					c.bad("C16-R1", fname, "output produced by template execution ["+label+"]", pos, "no template Execute on the accepting path")
 					continue
 				}
-				seen[f] = true
-				ft, has := dm.Types[f]
-				if !has {
-					c.bad("C16-R2", fname, "template field ."+f+" exists in the data ["+label+"]", c.P.InstrPos(exec.Instr), "template references ."+f+" which the data lacks: Execute fails (struct) or renders nothing (map) on this path")
+				c.check(exec.Callee == "(*html/template.Template).Execute", "C16-R1", fname, "html/template executes the form ["+label+"]", c.P.InstrPos(exec.Instr), exec.Callee, "the form is rendered by "+exec.Callee+": no contextual HTML escaping")
+				// returned bytes = Bytes(buf) with buf the Execute destination; no other writer to buf
+				buf := stripIface(exec.Args[1])
+				rv, isC := t.Vals[0].(*CallV)
+				c.check(isC && rv.Callee == "(*bytes.Buffer).Bytes" && rv.Args[0].Key() == buf.Key(), "C16-R1", fname, "returns the executed buffer ["+label+"]", pos, "rv.Bytes()", "returns "+ap(t.Vals[0]))
+				for _, e := range t.St.events {
+					if e.Kind == EvCall && e != exec && e.Seq < exec.Seq+1000 && directArg(e, buf.Key()) && !bufferReadOnly[shortName(e.Callee)] {
+						c.bad("C16-R1", fname, "other writer to the output buffer ["+label+"]", c.P.InstrPos(e.Instr), shortName(e.Callee)+" also writes the output buffer: content bypasses the template escaper")
+					}
+				}
+				execOK, k := t.eqFact(exec.Res[0], nilOf(nil))
+				c.check(k && execOK, "C16-R1", fname, "Execute error checked ["+label+"]", pos, "err == nil", "returns output although Execute's error is not known nil")
+				// template value: Must(Parse(New(name), SRC))
+				src, srcOK := "", false
+				if must, ok := exec.Args[0].(*CallV); ok {
+					var p *CallV
+					if must.Callee == "html/template.Must" || must.Callee == "text/template.Must" {
+						p, _ = must.Args[0].(*CallV)
+					} else {
+						p = must
+					}
+					if p != nil && strings.HasSuffix(p.Callee, "Template).Parse") && len(p.Args) == 2 {
+						src, srcOK = constString(p.Args[1])
+					}
+				}
+				if l, isLoad := exec.Args[0].(*LoadV); isLoad && !srcOK {
+					_ = l
+				}
+				if !srcOK {
+					c.bad("C16-R2", fname, "template source is a constant ["+label+"]", c.P.InstrPos(exec.Instr), "the template text is not a compile-time constant (configured or caller data concatenated into the template is never escaped): "+ap(exec.Args[0]))
 					continue
 				}
-				c.check(ft == "string", "C16-R2", fname, "template field ."+f+" is a plain string ["+label+"]", c.P.InstrPos(exec.Instr), "string", "field ."+f+" has type "+ft+": typed content bypasses html/template's escaper")
-				c.check(want[f], "C16-R2", fname, "template field ."+f+" expected ["+label+"]", c.P.InstrPos(exec.Instr), "in table", "unexpected action ."+f)
-			}
-			for f := range want {
-				c.check(seen[f], "C16-R2", fname, "template uses ."+f+" ["+label+"]", c.P.InstrPos(exec.Instr), "present", "template lacks ."+f)
-			}
-			// textual structure
-			c.check(len(reForm.FindAllString(src, -1)) == 1, "C16-R2", fname, "exactly one form ["+label+"]", c.P.InstrPos(exec.Instr), "1", "template does not contain exactly one <form")
-			// the script that submits the form names the form that is on the page
-			formIDs := regexp.MustCompile(`(?i)<form\b[^>]*\bid="([^"]*)"`).FindAllStringSubmatch(src, -1)
-			for _, m := range regexp.MustCompile(`getElementById\('([^']*)'\)\s*\.\s*submit\(`).FindAllStringSubmatch(src, -1) {
-				c.check(len(formIDs) == 1 && formIDs[0][1] == m[1], "C16-R2", fname, "auto-submit targets the form on the page ["+label+"]", c.P.InstrPos(exec.Instr), "getElementById('"+m[1]+"') is the form's id",
-					"the script submits element '"+m[1]+"', which is not the id of the form in this template: the form is never posted")
-			}
-			low := strings.ToLower(src)
-			c.check(strings.Contains(low, `method="post"`), "C16-R2", fname, "method POST ["+label+"]", c.P.InstrPos(exec.Instr), "post", "form method is not POST")
-			c.check(strings.Contains(src, `action="{{.URL}}"`), "C16-R2", fname, "action={{.URL}} in a quoted attribute ["+label+"]", c.P.InstrPos(exec.Instr), "quoted", "form action is not the quoted {{.URL}} action")
-			c.check(strings.Contains(src, `name="`+ps.InputName+`" value="{{.`+ps.B64Field+`}}"`), "C16-R2", fname, "hidden "+ps.InputName+" input ["+label+"]", c.P.InstrPos(exec.Instr), "quoted", "no input name="+ps.InputName+" with the quoted {{."+ps.B64Field+"}} value")
-			hasRelay := strings.Contains(src, `name="RelayState" value="{{.RelayState}}"`)
-			c.check(hasRelay == withRelay, "C16-R2", fname, "RelayState input iff relay state given ["+label+"]", c.P.InstrPos(exec.Instr), fmt.Sprint(withRelay), fmt.Sprintf("RelayState input present=%v on the path where relayState non-empty=%v", hasRelay, withRelay))
-			// every action inside a double-quoted attribute value
-			for _, m := range regexp.MustCompile(`.?\{\{[^}]*\}\}.?`).FindAllString(src, -1) {
-				c.check(strings.HasPrefix(m, `"`) && strings.HasSuffix(m, `"`), "C16-R2", fname, "action "+strings.Trim(m, `"`)+" inside a quoted attribute value ["+label+"]", c.P.InstrPos(exec.Instr), "quoted", "action "+m+" is not delimited by double quotes")
-			}
-			// R3 wiring
-			get := func(f string) string {
-				if v, ok := dm.Vals[f]; ok && v != nil {
-					return ap(v)
+				if inTemplate {
+					expanded, ok := expandRelayBlock(src, withRelay)
+					if !ok {
+						c.bad("C16-R2", fname, "RelayState input decided by relayState != \"\"", pos, "path does not test relayState, and the template has no single {{if .RelayState}}…{{end}} block that would")
+						break
+					}
+					src = expanded
 				}
-				return "<unset>"
-			}
-			b64 := "(*encoding/base64.Encoding).EncodeToString(encoding/base64.StdEncoding, (*etree.Document).WriteToBytes(" + docP + ")#0)"
-			c.check(get("URL") == ps.URLField, "C16-R3", fname, ".URL <- "+ps.URLField+" ["+label+"]", pos, "wired", ".URL is "+get("URL")+", want "+ps.URLField)
-			b64got := get(ps.B64Field)
-			if wb := "(*etree.Document).WriteToBytes(" + docP + ")#0"; b64got == `""` && (atoms["!(0 < len("+wb+"))"] || atoms["len("+wb+") == 0"] || atoms["len("+wb+") < 1"]) {
-				// `if len(buf) > 0 { enc = base64(buf) }`: the base64 text of no bytes is the empty string
-				b64got = b64
-			}
-			c.check(b64got == b64, "C16-R3", fname, "."+ps.B64Field+" <- base64(document) ["+label+"]", pos, "wired", "."+ps.B64Field+" is "+get(ps.B64Field))
-			if withRelay {
-				c.check(get("RelayState") == relay, "C16-R3", fname, ".RelayState <- relayState ["+label+"]", pos, "wired", ".RelayState is "+get("RelayState"))
+				fields, err := templateFields(src)
+				if err != nil {
+					c.bad("C16-R2", fname, "template parses ["+label+"]", c.P.InstrPos(exec.Instr), "template does not parse: "+err.Error())
+					continue
+				}
+				// template data: a struct (by value or through a pointer, promoted fields of embedded structs included) or a
+				// map[string]string literal — what html/template resolves ".Name" against
+				data := stripIface(exec.Args[2])
+				dm, dmOK := templateData(t, data)
+				if !dmOK {
+					c.bad("C16-R2", fname, "template data is a struct ["+label+"]", c.P.InstrPos(exec.Instr), "data is "+typeStr(data.Type())+": neither a struct of strings nor a map[string]string literal")
+					continue
+				}
+				want := map[string]bool{"URL": true, ps.B64Field: true}
+				if withRelay {
+					want["RelayState"] = true
+				}
+				seen := map[string]bool{}
+				for _, f := range fields {
+					if strings.HasPrefix(f, "!") {
+						c.bad("C16-R2", fname, "only plain field actions ["+label+"]", c.P.InstrPos(exec.Instr), "template uses "+f+": outside the analysed shape")
+						continue
+					}
+					seen[f] = true
+					ft, has := dm.Types[f]
+					if !has {
+						c.bad("C16-R2", fname, "template field ."+f+" exists in the data ["+label+"]", c.P.InstrPos(exec.Instr), "template references ."+f+" which the data lacks: Execute fails (struct) or renders nothing (map) on this path")
+						continue
+					}
+					c.check(ft == "string", "C16-R2", fname, "template field ."+f+" is a plain string ["+label+"]", c.P.InstrPos(exec.Instr), "string", "field ."+f+" has type "+ft+": typed content bypasses html/template's escaper")
+					c.check(want[f], "C16-R2", fname, "template field ."+f+" expected ["+label+"]", c.P.InstrPos(exec.Instr), "in table", "unexpected action ."+f)
+				}
+				for f := range want {
+					c.check(seen[f], "C16-R2", fname, "template uses ."+f+" ["+label+"]", c.P.InstrPos(exec.Instr), "present", "template lacks ."+f)
+				}
+				// textual structure
+				c.check(len(reForm.FindAllString(src, -1)) == 1, "C16-R2", fname, "exactly one form ["+label+"]", c.P.InstrPos(exec.Instr), "1", "template does not contain exactly one <form")
+				// the script that submits the form names the form that is on the page
+				formIDs := regexp.MustCompile(`(?i)<form\b[^>]*\bid="([^"]*)"`).FindAllStringSubmatch(src, -1)
+				for _, m := range regexp.MustCompile(`getElementById\('([^']*)'\)\s*\.\s*submit\(`).FindAllStringSubmatch(src, -1) {
+					c.check(len(formIDs) == 1 && formIDs[0][1] == m[1], "C16-R2", fname, "auto-submit targets the form on the page ["+label+"]", c.P.InstrPos(exec.Instr), "getElementById('"+m[1]+"') is the form's id",
+						"the script submits element '"+m[1]+"', which is not the id of the form in this template: the form is never posted")
+				}
+				low := strings.ToLower(src)
+				c.check(strings.Contains(low, `method="post"`), "C16-R2", fname, "method POST ["+label+"]", c.P.InstrPos(exec.Instr), "post", "form method is not POST")
+				c.check(strings.Contains(src, `action="{{.URL}}"`), "C16-R2", fname, "action={{.URL}} in a quoted attribute ["+label+"]", c.P.InstrPos(exec.Instr), "quoted", "form action is not the quoted {{.URL}} action")
+				c.check(strings.Contains(src, `name="`+ps.InputName+`" value="{{.`+ps.B64Field+`}}"`), "C16-R2", fname, "hidden "+ps.InputName+" input ["+label+"]", c.P.InstrPos(exec.Instr), "quoted", "no input name="+ps.InputName+" with the quoted {{."+ps.B64Field+"}} value")
+				hasRelay := strings.Contains(src, `name="RelayState" value="{{.RelayState}}"`)
+				c.check(hasRelay == withRelay, "C16-R2", fname, "RelayState input iff relay state given ["+label+"]", c.P.InstrPos(exec.Instr), fmt.Sprint(withRelay), fmt.Sprintf("RelayState input present=%v on the path where relayState non-empty=%v", hasRelay, withRelay))
+				// every action inside a double-quoted attribute value
+				for _, m := range regexp.MustCompile(`.?\{\{[^}]*\}\}.?`).FindAllString(src, -1) {
+					c.check(strings.HasPrefix(m, `"`) && strings.HasSuffix(m, `"`), "C16-R2", fname, "action "+strings.Trim(m, `"`)+" inside a quoted attribute value ["+label+"]", c.P.InstrPos(exec.Instr), "quoted", "action "+m+" is not delimited by double quotes")
+				}
+				// R3 wiring
+				get := func(f string) string {
+					if v, ok := dm.Vals[f]; ok && v != nil {
+						return ap(v)
+					}
+					return "<unset>"
+				}
+				b64 := "(*encoding/base64.Encoding).EncodeToString(encoding/base64.StdEncoding, (*etree.Document).WriteToBytes(" + docP + ")#0)"
+				c.check(get("URL") == ps.URLField, "C16-R3", fname, ".URL <- "+ps.URLField+" ["+label+"]", pos, "wired", ".URL is "+get("URL")+", want "+ps.URLField)
+				b64got := get(ps.B64Field)
+				if wb := "(*etree.Document).WriteToBytes(" + docP + ")#0"; b64got == `""` && (atoms["!(0 < len("+wb+"))"] || atoms["len("+wb+") == 0"] || atoms["len("+wb+") < 1"]) {
+					// `if len(buf) > 0 { enc = base64(buf) }`: the base64 text of no bytes is the empty string
+					b64got = b64
+				}
+				c.check(b64got == b64, "C16-R3", fname, "."+ps.B64Field+" <- base64(document) ["+label+"]", pos, "wired", "."+ps.B64Field+" is "+get(ps.B64Field))
+				if withRelay || inTemplate {
+					c.check(get("RelayState") == relay, "C16-R3", fname, ".RelayState <- relayState ["+label+"]", pos, "wired", ".RelayState is "+get("RelayState"))
+				}
+				if inTemplate && pass == 1 {
+					n++ // one Go path, two rendered forms
+				}
 			}
 		}
 		c.count("C16/accepting "+fname, n)
@@ -1540,11 +1580,15 @@ func ruleC16(c *Ctx) {
 		}
 	}
 	// package identity across the library: text/template must not be used to render output
-	scanCalls(c.P, c.P.LibFns, func(s string) bool { return strings.HasPrefix(s, "text/template.") || strings.HasPrefix(s, "(*text/template.") }, func(s callSite) {
+	scanCalls(c.P, c.P.LibFns, func(s string) bool {
+		return strings.HasPrefix(s, "text/template.") || strings.HasPrefix(s, "(*text/template.")
+	}, func(s callSite) {
 		c.bad("C16-R1", shortFn(s.Caller), "call "+s.Callee, c.P.InstrPos(s.Instr), "text/template used in library scope: output is not HTML-escaped")
 	})
 	fired := 0
-	scanCalls(c.P, controlFns(c, "texttemplate"), func(s string) bool { return strings.HasPrefix(s, "text/template.") || strings.HasPrefix(s, "(*text/template.") }, func(s callSite) { fired++ })
+	scanCalls(c.P, controlFns(c, "texttemplate"), func(s string) bool {
+		return strings.HasPrefix(s, "text/template.") || strings.HasPrefix(s, "(*text/template.")
+	}, func(s callSite) { fired++ })
 	c.Controls["C16-R1 texttemplate"] = fired > 0
 	if fired == 0 {
 		c.bad("C16-R1", "controls/texttemplate", "positive control", "-", "matcher did not flag the control that renders with text/template")
